@@ -1,17 +1,22 @@
 """C03 - written text survives a conformant parser.
 
 Streams
-  A  caption sets (1-4 visible lines per caption over metacharacter-heavy text, optional empty lines, optional flat
-     style spans) x 7 writers.  Per writer output:
+  A  caption sets (1-4 captions; 1-4 visible lines each over metacharacter-heavy text, random code points, U+00A0 /
+     U+200B/E/F / U+FEFF / U+2028 as data; empty lines as consecutive breaks, empty text nodes and white-space-only text
+     nodes; flat style spans anywhere, also inside a word; in one set of five style dictionaries carrying flags with the
+     value False; for SRT, in ~30 % of the sets two consecutive captions with the same timing) x 7 writers.
        property oracle   : the document parsed by the observer the property names (lxml strict XML / html.parser /
-                           the Coq WebVTT, SRT, MicroDVD reference grammars) must give one cue per caption with the
-                           authored lines (Coq ok_cues, spec/SpecTextLines.v);
-       correspondence    : the extracted writer model (coq/model/TextWrite.v) must produce the same <p> payload
-                           (DFXP x3, SAMI) / the same document (WebVTT, SRT, MicroDVD).
+                           the Coq WebVTT, SRT, MicroDVD reference grammars) must give one cue per caption (SRT: per run of
+                           equally timed captions) with the authored lines - Coq ok_cues_strict (spec/SpecTextLines.v):
+                           per line equal after trimming leading/trailing white space ONLY, empty lines dropped;
+       correspondence    : the extracted writer model (coq/model/TextWrite.v) must produce LITERALLY the same <p> payload
+                           (DFXP x3, SAMI) / the same document (WebVTT, SRT, MicroDVD); any difference is a disagreement.
   B  spec-parser validation: the Coq strict XML content parser against lxml on every payload and on mutated
      (mostly ill-formed) payloads - both must accept/reject together and build the same tree.
-  C  single strings (every visible string of length <= 4/5 over the metacharacters + random lines), each as a
-     one-line caption, 40 per caption set, through the public writers; judged exactly like stream A.
+  C  single strings (every string of length <= 4/5 over 9 symbols, every pair over 23 symbols incl. quotes | { } digits,
+     random lines), as one-line and as two-line captions, through all 7 public writers; judged exactly like stream A.
+Known findings are recognised by the FAILURE (the observed lines equal the authored ones with a blank after every SAMI
+text node / with U+00A0 for every empty WebVTT text node), never by the shape of the input.
 """
 import itertools
 import re
@@ -43,10 +48,6 @@ def excluded(spec, fmt):
     if fmt == "MicroDVD":
         if any(n[0] == "t" and "|" in n[1] for n in spec):
             return "mdvd_pipe_in_text"
-    if fmt in ("SAMI", "DFXP-legacy", "SRT") and G.has_inner_word_boundary(spec):
-        # these writers put a space after every text node; a node boundary inside a word is outside the
-        # comparison fixed by DESIGN 7.0 iv (counted, see design/C03.md)
-        return "inner_word_boundary_space_writers"
     return None
 
 
@@ -65,11 +66,12 @@ def observe(kind, doc):
 
 def run_sets(ctx, res, nsets):
     rng = ctx.rng
-    cases = []       # (fmt, specs, doc or Err, observer result, model request)
+    cases = []
     for k in range(nsets):
         ncap = rng.randint(1, 4)
         adv = rng.choice([0.2, 0.5, 0.8])
-        base = [G.rand_caption_nodes(rng, adversarial=adv, styles=rng.choice([0.0, 0.3, 0.6]), intra=0.12) for _ in range(ncap)]
+        G.FALSE_KEYS[0] = rng.random() < 0.2
+        base = [G.rand_caption_nodes(rng, adversarial=adv, styles=rng.choice([0.0, 0.3, 0.6]), intra=0.15) for _ in range(ncap)]
         for (fmt, W, kind, mreq) in WRITERS:
             specs = []
             for s in base:
@@ -80,34 +82,59 @@ def run_sets(ctx, res, nsets):
                     specs.append(s)
             if not specs:
                 continue
-            cs = G.capset(specs)
+            spans = [G.times(i) for i in range(len(specs))]
+            if fmt == "SRT" and len(specs) > 1 and rng.random() < 0.3:
+                # consecutive captions with the same (start, end): the SRT writer may merge them (one cue, lines in order)
+                j = rng.randint(1, len(specs) - 1)
+                spans[j] = spans[j - 1]
+                res["distribution"]["srt_equal_timestamps"] = res["distribution"].get("srt_equal_timestamps", 0) + 1
+            cs = G.capset(specs, spans=spans)
             out = impl.call(lambda: W().write(cs))
-            cases.append((fmt, kind, mreq, specs, out))
+            cases.append((fmt, kind, mreq, specs, out, spans))
+        G.FALSE_KEYS[0] = False
     return process_cases(ctx, res, cases)
 
 
+def merge_equal(specs, spans):
+    """what 'one cue per caption' means for SRT when consecutive captions share (start, end): they may be one cue"""
+    out, osp = [], []
+    for s, sp in zip(specs, spans):
+        if osp and osp[-1] == sp:
+            out[-1] = out[-1] + [("b",)] + list(s)
+        else:
+            out.append(list(s))
+            osp.append(sp)
+    return out, osp
+
+
 def process_cases(ctx, res, cases):
-    # requests to the oracle: authored lines, model outputs, coq observers
+    """per case: observe the written document with the reference parser, judge every caption with the Coq oracle
+    ok_cues_strict (trim only), compare the output literally with the model's"""
+    records = []
     reqs = []
-    for (fmt, kind, mreq, specs, out) in cases:
-        for s in specs:
+    for case in cases:
+        fmt, kind, mreq, specs, out = case[:5]
+        spans = case[5] if len(case) > 5 else [G.times(i) for i in range(len(specs))]
+        exp_specs = specs
+        if fmt == "SRT":
+            exp_specs, _ = merge_equal(specs, spans)
+        rec = {"fmt": fmt, "kind": kind, "specs": specs, "exp_specs": exp_specs, "spans": spans, "out": out,
+               "observed": None, "model": [], "obs_error": None}
+        records.append(rec)
+        for s in exp_specs:
             reqs.append((321, G.wire_nodes(s)))
     authored_all = oracle_batch(reqs)
     pos = 0
-    obs_reqs, obs_slots = [], []
-    model_reqs, model_slots = [], []
-    records = []
-    for (fmt, kind, mreq, specs, out) in cases:
-        authored = authored_all[pos:pos + len(specs)]
-        pos += len(specs)
-        rec = {"fmt": fmt, "kind": kind, "specs": specs, "authored": authored, "out": out, "observed": None,
-               "model": None, "impl_payloads": None, "obs_error": None}
-        records.append(rec)
-        if not isinstance(out, Ok):
+    obs_reqs, obs_slots, model_reqs, model_slots = [], [], [], []
+    for rec in records:
+        n = len(rec["exp_specs"])
+        rec["authored"] = authored_all[pos:pos + n]
+        pos += n
+        if not isinstance(rec["out"], Ok):
             continue
-        doc = out.v
+        doc = rec["out"].v
         try:
-            how, val = observe(kind, doc)
+            how, val = observe(rec["kind"], doc)
         except Exception as e:  # the strict parser refused the document
             rec["obs_error"] = repr(e)[:300]
             how, val = "py", None
@@ -116,15 +143,14 @@ def process_cases(ctx, res, cases):
         else:
             obs_slots.append(rec)
             obs_reqs.append(val)
-        # model
+        mreq = next(w[3] for w in WRITERS if w[0] == rec["fmt"])
         if isinstance(mreq, tuple):
-            for s in specs:
+            for s in rec["specs"]:
                 model_reqs.append((301, [mreq[0], mreq[1], G.wire_nodes(s)]))
                 model_slots.append(rec)
         else:
             caps = []
-            for i, s in enumerate(specs):
-                st, en = G.times(i)
+            for s, (st, en) in zip(rec["specs"], rec["spans"]):
                 tl = {302: G.vtt_timing, 303: G.srt_timing, 304: G.mdvd_prefix}[mreq](st, en)
                 caps.append([tl, G.wire_nodes(s)])
             model_reqs.append((mreq, caps))
@@ -134,127 +160,107 @@ def process_cases(ctx, res, cases):
         if r == []:
             rec["obs_error"] = "reference grammar rejects the document"
     for rec, r in zip(model_slots, oracle_batch(model_reqs)):
-        if rec["model"] is None:
-            rec["model"] = []
         rec["model"].append(r)
-    # property oracle (Coq ok_cues) on what the implementation produced
+    # the property oracle, caption by caption
     ok_reqs, ok_slots = [], []
     for rec in records:
-        if rec["observed"] is not None:
-            ok_reqs.append((320, [rec["authored"], rec["observed"]]))
-            ok_slots.append(rec)
-    oks = dict((id(rec), r) for rec, r in zip(ok_slots, oracle_batch(ok_reqs)))
-    inexact = []
-    shrunk = set()
+        if rec["observed"] is not None and len(rec["observed"]) == len(rec["authored"]):
+            for i, (a, o) in enumerate(zip(rec["authored"], rec["observed"])):
+                ok_reqs.append((323, [[a], [o]]))
+                ok_slots.append((rec, i))
+    oks = {}
+    for (rec, i), r in zip(ok_slots, oracle_batch(ok_reqs)):
+        oks.setdefault(id(rec), {})[i] = r
+    viols = []
     for rec in records:
-        res["evaluations"] += len(rec["specs"])
         fmt = rec["fmt"]
+        res["evaluations"] += len(rec["exp_specs"])
         res["distribution"]["docs_" + fmt] = res["distribution"].get("docs_" + fmt, 0) + 1
-        res["distribution"]["captions"] = res["distribution"].get("captions", 0) + len(rec["specs"])
-        for s, a in zip(rec["specs"], rec["authored"]):
+        res["distribution"]["captions"] = res["distribution"].get("captions", 0) + len(rec["exp_specs"])
+        for s, a in zip(rec["exp_specs"], rec["authored"]):
             if any(nontrivial_line(l) for l in a) or len(a) > 1:
                 res["nontrivial"].add((fmt, tuple(a), tuple(n[0] for n in s)))
         out = rec["out"]
-        good = isinstance(out, Ok) and rec["observed"] is not None and oks.get(id(rec)) == 1
-        if not good:
-            v = classify(rec)
-            key = (v["kind"], v["fmt"], v["shape"])
-            if key not in shrunk and len(shrunk) < 6:
-                shrunk.add(key)
-                v = shrink(ctx, v)
-            res["violations"].append(v)
-            continue
-        # correspondence.  Exact equality with the model is measured (distribution: model_exact_*); the alarm level is
-        # the level the property fixes: the model's output, read by the same reference parser, must give the same
-        # normalised lines as the implementation's output (a white-space-only rewrite of a writer is not a finding).
-        doc = out.v
-        if rec["kind"] in ("xml", "html"):
-            pl = [p.strip() for p in G.p_payloads(doc)]
-            if rec["kind"] == "html":
-                pl = [p for p in pl if p != "&nbsp;"]
-            model = [m.strip() for m in rec["model"]]
-            exact = (pl == model)
-            rec["payloads"] = pl
-            rec["model_parse"] = ("payloads", model)
+        if not isinstance(out, Ok) or rec["observed"] is None or len(rec["observed"]) != len(rec["authored"]):
+            viols.append(classify(rec, None))
         else:
-            exact = (rec["model"][0] == doc)
-            rec["model_parse"] = ("doc", rec["model"][0])
-        key = "model_exact_equal" if exact else "model_exact_differs"
-        res["distribution"][key] = res["distribution"].get(key, 0) + 1
-        if not exact:
-            inexact.append(rec)
-    # property-level correspondence for the outputs that are not literally the model's
-    reqs, slots = [], []
-    for rec in inexact:
-        how, val = rec["model_parse"]
-        if how == "payloads":
-            for m in val:
-                reqs.append((310, m))
-                slots.append(rec)
-        else:
-            code = {"vtt": 311, "srt": 312, "mdvd": 313}[rec["kind"]]
-            reqs.append((code, val))
-            slots.append(rec)
-    outs = oracle_batch(reqs) if reqs else []
-    per = {}
-    for rec, o in zip(slots, outs):
-        per.setdefault(id(rec), []).append(o)
-    reqs2, slots2 = [], []
-    for rec in inexact:
-        o = per[id(rec)]
-        if rec["model_parse"][0] == "payloads":
-            mobs = [x[1] if x != [] else None for x in o]
-        else:
-            mobs = o[0][0] if o[0] != [] else None
-        if mobs is None or any(x is None for x in mobs):
-            res["disagreements"].append({"fmt": rec["fmt"], "what": "the model's output is rejected by the reference parser",
-                                         "nodes": rec["specs"], "model": rec["model"]})
-            continue
-        reqs2.append((320, [mobs, rec["observed"]]))
-        slots2.append((rec, mobs))
-    for (rec, mobs), r in zip(slots2, oracle_batch(reqs2) if reqs2 else []):
-        if r != 1:
-            res["disagreements"].append({"fmt": rec["fmt"], "what": "model and implementation outputs read differently",
-                                         "nodes": rec["specs"], "impl_lines": rec["observed"], "model_lines": mobs,
-                                         "impl": rec["out"].v, "model": rec["model"]})
+            for i, r in sorted(oks.get(id(rec), {}).items()):
+                if r != 1:
+                    viols.append(classify(rec, i))
+        # literal correspondence with the model: any difference is a broken tie (a `disagreement`), whatever it is
+        if isinstance(out, Ok):
+            doc = out.v
+            if rec["kind"] in ("xml", "html"):
+                pl = [p.strip() for p in G.p_payloads(doc)]
+                if rec["kind"] == "html":
+                    pl = [p for p in pl if p != "&nbsp;"]
+                model = [m.strip() for m in rec["model"]]
+                rec["payloads"] = pl
+                exact = (pl == model)
+                mshow, ishow = model, pl
+            else:
+                exact = (rec["model"][0] == doc)
+                mshow, ishow = rec["model"][0], doc
+            key = "model_exact_equal" if exact else "model_exact_differs"
+            res["distribution"][key] = res["distribution"].get(key, 0) + 1
+            if not exact and len(res["disagreements"]) < 50:
+                res["disagreements"].append({"fmt": fmt, "what": "writer output differs literally from the model's",
+                                             "nodes": rec["specs"], "impl": ishow, "model": mshow})
+    # SAMI known finding: failure-keyed classification (the observed line IS the authored one with a blank after
+    # every text node); everything else keeps its own kind
+    cand = [v for v in viols if v["kind"] == "cue-text" and v["fmt"] == "SAMI"]
+    if cand:
+        rs = oracle_batch([(320, [[G.py_lines_sp(v["input"][0])], [v["observed"]]]) for v in cand])
+        for v, r in zip(cand, rs):
+            if r == 1:
+                v["kind"] = "blank-inserted-at-node-boundary"
+                v["what"] = "SAMI: a blank is written after every text node / </span>: " + v["what"]
+    # WebVTT known finding, failure-keyed: the observed lines ARE the authored ones with U+00A0 for every empty text node
+    cand = [v for v in viols if v["kind"] == "cue-text" and v["fmt"] == "WebVTT"
+            and any(n[0] == "t" and n[1] == "" for n in v["input"][0])]
+    if cand:
+        alt = oracle_batch([(321, G.wire_nodes([("t", "\u00a0") if (n[0] == "t" and n[1] == "") else n for n in v["input"][0]]))
+                            for v in cand])
+        rs = oracle_batch([(323, [[a], [v["observed"]]]) for a, v in zip(alt, cand)])
+        for v, r in zip(cand, rs):
+            if r == 1:
+                v["kind"] = "nbsp-for-empty-text-node"
+                v["what"] = "WebVTT: &nbsp; written for an empty text node inside a line: " + v["what"]
+    shrunk = set()
+    for v in viols:
+        key = (v["kind"], v["fmt"])
+        if key not in shrunk and len(shrunk) < 6 and v["kind"] not in ("blank-inserted-at-node-boundary", "nbsp-for-empty-text-node"):
+            shrunk.add(key)
+            v = shrink(ctx, v)
+        res["violations"].append(v)
     return records
 
 
-def classify(rec):
+def classify(rec, i):
+    """i = index of the failing caption, or None for a document-level failure"""
     fmt = rec["fmt"]
     out = rec["out"]
+    base = {"fmt": fmt, "replay": "write", "shape": "caption", "document": out.v if isinstance(out, Ok) else None}
     if not isinstance(out, Ok):
-        kind, what = "writer-raises", f"{fmt} writer raised {impl.ERR_NAMES.get(out.code, out.code)}"
-    elif rec["observed"] is None:
-        kind, what = "unparseable-output", f"{fmt} output rejected by the reference parser: {rec['obs_error']}"
-    else:
-        a, o = rec["authored"], rec["observed"]
-        if len(a) != len(o):
-            kind = "cue-count"
-            what = f"{fmt}: {len(a)} captions written, reference parser sees {len(o)} cues"
-        else:
-            kind = "cue-text"
-            what = f"{fmt}: cue lines differ from the authored lines"
-    return {"kind": kind, "fmt": fmt, "what": what, "input": rec["specs"], "authored": rec["authored"],
-            "observed": rec["observed"], "document": out.v if isinstance(out, Ok) else None, "replay": "write",
-            "shape": shape_of(rec)}
+        return dict(base, kind="writer-raises", what=f"{fmt} writer raised {impl.ERR_NAMES.get(out.code, out.code)}",
+                    input=rec["specs"], spans=rec["spans"])
+    if rec["observed"] is None:
+        return dict(base, kind="unparseable-output", input=rec["specs"], spans=rec["spans"],
+                    what=f"{fmt} output rejected by the reference parser: {rec['obs_error']}")
+    if i is None:
+        return dict(base, kind="cue-count", input=rec["specs"], spans=rec["spans"], authored=rec["authored"], observed=rec["observed"],
+                    what=f"{fmt}: {len(rec['authored'])} captions written, reference parser sees {len(rec['observed'])} cues")
+    return dict(base, kind="cue-text", input=[rec["exp_specs"][i]], spans=None, authored=rec["authored"][i], observed=rec["observed"][i],
+                what=f"{fmt}: cue lines {rec['observed'][i]!r} are not the authored lines {rec['authored'][i]!r}")
 
 
-def shape_of(rec):
-    """coarse classification used by known-finding matching"""
-    fmt = rec["fmt"]
-    for s in rec["specs"]:
-        types = [n[0] for n in s]
-        if fmt == "SRT" and any(types[i] == "b" and types[i + 1] == "b" for i in range(len(types) - 1)):
-            return "srt-consecutive-breaks"
-    return "other"
-
-
-def check_one(fmt, specs):
-    """True when the property holds for this writer and these captions"""
+def check_one(fmt, specs, spans=None):
+    """True when the property holds for this writer and these captions (strict oracle)"""
     W, kind = next((w[1], w[2]) for w in WRITERS if w[0] == fmt)
-    authored = oracle_batch([(321, G.wire_nodes(s)) for s in specs])
-    out = impl.call(lambda: W().write(G.capset(specs)))
+    spans = spans or [G.times(i) for i in range(len(specs))]
+    exp = merge_equal(specs, spans)[0] if fmt == "SRT" else specs
+    authored = oracle_batch([(321, G.wire_nodes(s)) for s in exp])
+    out = impl.call(lambda: W().write(G.capset(specs, spans=spans)))
     if not isinstance(out, Ok):
         return False, ("raise", out.code)
     try:
@@ -266,13 +272,15 @@ def check_one(fmt, specs):
         if r == []:
             return False, ("unparseable", "reference grammar")
         val = r[0]
-    ok = oracle_batch([(320, [authored, val])])[0]
+    ok = oracle_batch([(323, [authored, val])])[0]
     return ok == 1, {"authored": authored, "observed": val, "document": out.v}
 
 
 def shrink(ctx, v):
     """greedy: fewer captions, fewer nodes, shorter texts, while the violation persists"""
-    fmt, specs = v["fmt"], [list(s) for s in v["input"]]
+    fmt, specs = v["fmt"], [[tuple(n) for n in s] for s in v["input"]]
+    if v.get("spans"):
+        return v
     budget = [60]
 
     def bad(sp):
@@ -286,6 +294,8 @@ def shrink(ctx, v):
             return not check_one(fmt, sp)[0]
         except Exception:
             return False
+    if not bad(specs):
+        return v
     changed = True
     while changed and budget[0] > 0:
         changed = False
@@ -319,7 +329,6 @@ def shrink(ctx, v):
         if isinstance(detail, dict):
             v.update(detail)
         v["what"] = v["what"] + " (shrunk)"
-        v["shape"] = shape_of({"fmt": fmt, "specs": specs})
     return v
 
 
@@ -421,31 +430,33 @@ def run_xml_validation(ctx, res, payloads, n_mut):
 
 # ---- stream C: single strings, through the public API ----------------------------------------------------
 def run_strings(ctx, res, maxlen, nrand):
-    """every string of length <= maxlen over the metacharacters (visible ones) + random lines, each as a
-    one-line caption, 40 captions per set, through every writer; judged exactly like stream A"""
-    syms = ["&", "<", ">", "-", "a", ";", "]", "#", " "]
+    """every visible string of length <= maxlen over the metacharacters + random lines, each as a one-line caption
+    (and, for a sample, as the second line of a two-line caption), 40 captions per set, through every writer"""
+    syms = ["&", "<", ">", "-", "a", ";", "]", "#", " ", '"', "'", "|", "{", "}", "1"]
     strings = []
     for L in range(1, maxlen + 1):
         strings.extend("".join(t) for t in itertools.product(syms, repeat=L))
     strings = [s for s in strings if s.strip()]
+    if len(strings) > ctx.n(9000, 200000):
+        strings = ctx.rng.sample(strings, ctx.n(9000, 200000))
     for _ in range(nrand):
         strings.append(G.rand_line(ctx.rng, adversarial=0.8))
     res["distribution"]["C_strings"] = len(strings)
     cases = []
     for k in range(0, len(strings), 40):
         chunk = strings[k:k + 40]
+        two = (k // 40) % 4 == 0
         for (fmt, W, kind, mreq) in WRITERS:
-            if fmt in ("DFXP-legacy", "DFXP-single"):
+            if fmt in ("DFXP-legacy", "DFXP-single") and (k // 40) % 5:
                 continue
-            specs = [[("t", s)] for s in chunk if not excluded([("t", s)], fmt)]
+            specs = [[("t", "x" + s), ("b",), ("t", s)] if two else [("t", s)] for s in chunk]
+            specs = [sp for sp in specs if not excluded(sp, fmt)]
             if not specs:
                 continue
             cs = G.capset(specs)
             out = impl.call(lambda: W().write(cs))
             cases.append((fmt, kind, mreq, specs, out))
     process_cases(ctx, res, cases)
-    # the string-level models (private helpers are NOT called; this is model-side only): the theorems' functions
-    # agree with what the documents above contain is already checked by the correspondence in process_cases.
 
 
 def run(ctx):
@@ -460,20 +471,26 @@ def run(ctx):
     res["rule"] = ("A: caption sets of 1-4 captions x 7 writers (DFXP, legacy DFXP, single-positioning DFXP, SAMI, WebVTT, "
                    "SRT, MicroDVD); non-trivial = a caption with a metacharacter (& < > quotes | { } \\ / ; # -) or more "
                    "than one line, counted as distinct (writer, authored lines, node shape). B: <p> payloads and mutated "
-                   "payloads, Coq XML parser vs lxml. C: every string of length <= %d over 9 symbols + random lines."
-                   % ctx.n(4, 5))
+                   "payloads, Coq XML parser vs lxml. C: every string of length <= %d over 9 symbols, pairs over 23 symbols, "
+                   "random lines; one- and two-line captions." % ctx.n(4, 5))
     nt = [x for x in res["nontrivial"] if x[0] != "str"]
     res["samples"] = [{"writer": x[0], "lines": list(x[1])} for x in sorted(nt, key=lambda x: -len(str(x)))[:3]] + \
                      [{"writer": x[0], "lines": list(x[1])} for x in nt[:3]]
     res["clauses"] = {
         "theorem": ["strict XML parse of xml_escape(s) is the text s (all strings over XML Char)",
-                    "WebVTT: cue-text reading of encode(s) is s; encode(s) never contains '-->'; the cue text never has a "
-                    "blank line inside (all node lists)",
-                    "SRT cue content never contains a blank line and its lines are the non-blank authored lines (all node lists)",
-                    "MicroDVD line grammar gives back the authored lines for texts without '|' (all node lists)"],
+                    "DFXP / legacy DFXP <p> payload models: strict parse = token list of the abstract writer; well-formed and "
+                    "all visible characters and breaks in order for balanced flat spans (interior white space NOT covered)",
+                    "WebVTT: cue-text reading (HTML character references) of encode(s) is s; the assembled cue text never "
+                    "contains '-->' and has no empty line inside (all node lists); no document-level theorem",
+                    "SRT: model document (merge of equally timed captions included) read by the block grammar satisfies "
+                    "ok_cues_strict against the authored lines (C03_srt_doc_meets_oracle)",
+                    "MicroDVD: model document read by the line grammar satisfies ok_cues_strict for texts without '|' "
+                    "(C03_mdvd_doc_meets_oracle)"],
         "correspondence_only": ["document level: header/attributes/indentation through bs4 prettify, judged by lxml (strict) / "
-                                "html.parser", "the model's <p> payload / document equals the implementation's on the generated "
-                                "captions", "Coq XML content parser agrees with lxml on payloads and mutated payloads"]}
+                                "html.parser", "the model's <p> payload / document equals the implementation's literally on "
+                                "every generated caption set (a difference is reported as a disagreement)",
+                                "authored lines survive with their interior white space for DFXP x3, SAMI, WebVTT (oracle on "
+                                "real output only)", "Coq XML content parser agrees with lxml on payloads and mutated payloads"]}
     res["trusted_extra"] = ["observers: lxml.etree (strict, no recovery) for DFXP; html.parser for SAMI; "
                             "Coq reference grammars (spec/SpecTextVtt.v, SpecTextBlocks.v) for WebVTT/SRT/MicroDVD"]
     return res
@@ -482,6 +499,7 @@ def run(ctx):
 def replay(ctx, rec):
     if rec.get("replay") == "write":
         specs = [[tuple(n) for n in s] for s in rec["input"]]
-        ok, detail = check_one(rec["fmt"], specs)
+        spans = [tuple(x) for x in rec["spans"]] if rec.get("spans") else None
+        ok, detail = check_one(rec["fmt"], specs, spans)
         return (not ok), detail
     return False, "unknown replay kind"
